@@ -14,9 +14,25 @@ it had appended (they have been consumed) and the packets it was just given, and
 after which the queue or a packet handed out earlier changed thereby (last line of the result; 0).
 Op 902 = the same history, observed at the parse operations only (large backlogs), model side through
 the linear-time formulation Model/ParserFast.v (proved equal to the one behind op 900)."""
-import itertools
+import itertools, resource
 from collections import deque
 from spacepackets.ccsds import spacepacket as sp
+
+# The extracted model uses the non-tail-recursive list functions of the Coq library (app, map, firstn):
+# a backlog of more than about 500 000 octets overflows the default 8 MiB stack of the model driver.
+# Child processes inherit the soft limit: raise it for the driver (streams() leaves the largest backlogs
+# out when the limit cannot be raised).
+BIG_STACK = False
+try:
+    _soft, _hard = resource.getrlimit(resource.RLIMIT_STACK)
+    _want = 1 << 30
+    if _soft == resource.RLIM_INFINITY or _soft >= _want:
+        BIG_STACK = True
+    elif _hard == resource.RLIM_INFINITY or _hard >= _want:
+        resource.setrlimit(resource.RLIMIT_STACK, (_want, _hard))
+        BIG_STACK = True
+except Exception:      # noqa
+    pass
 
 ID = "C13"
 ENUMS = [
@@ -76,11 +92,9 @@ def _history(a, observe_appends):
         out += _obs(pk, q)
         # the caller reuses its receive buffers and edits the packets it was given
         qsnap = [bytes(x) for x in q]
-        still = [c for c in mine if any(c is x for x in q)]
         for c in mine:
-            if not any(c is x for x in still):
-                _flip(c)
-        mine = still
+            _flip(c)
+        mine = []
         new = []
         for x in pk:
             before = bytes(x)
@@ -386,8 +400,9 @@ def streams(tier, rng):
     for m in ([] if big else range(1280, 4097, 256)):      # thorough: covered by the sweep above
         for d in range(-8, 9):
             cases.append(length_case(rng, m + d, (m // 256 + d) % 8, IDS1 if d % 2 else IDS3))
-    for m in (list(range(5120, 65537, 1024)) if big else [8192, 16384, 32768, 65536]):
-        for k, d in enumerate((-8, -7, -1, 0, 1, 6, 7, 8) if big else (-1, 0, 1, 6)):
+    for m in (list(range(5120, 65537, 1024)) if big else list(range(8192, 65537, 4096))):
+        pow2 = m & (m - 1) == 0
+        for k, d in enumerate((-8, -7, -1, 0, 1, 6, 7, 8) if big else (-1, 0, 1, 6) if pow2 else (0, 1 if m % 8192 else -1)):
             if m + d <= 65542:
                 cases.append(length_case(rng, m + d, (0, 2, 5, 7, 1, 3)[(k + m // 1024) % 6], IDS1))
     for n, v in ((65541, 0), (65542, 2), (65535, 5), (65542, 5), (65530, 7)):
@@ -395,7 +410,7 @@ def streams(tier, rng):
     for k in range(200 if big else 12):                      # random lengths above 4 KiB
         cases.append(length_case(rng, rng.randrange(4097, 65543), k, IDS1))
     yield "packet_length_boundaries_to_64k", "exact", cases
-    # 7. backlogs: many chunks queued before the first parse call (1 KiB .. 256 KiB, thorough .. 2 MiB):
+    # 7. backlogs: many chunks queued before the first parse call (1 KiB .. 1 MiB, thorough .. 2 MiB):
     #    reads of a fixed size, one-octet reads, a few random cuts, a parse in the middle; totals at and
     #    around 64 KiB + 6 (the largest packet) and other powers of two
     cases = []
@@ -414,8 +429,10 @@ def streams(tier, rng):
     cases.append(backlog_case(rng, IDS1, [1000] * 100, ("every", 4096)))
     cases.append(backlog_case(rng, IDS3, sizes_for(rng, 131072 + rng.randrange(4096), 4000, 20000), ("cuts", 3)))
     cases.append(backlog_case(rng, IDS1, sizes_for(rng, 262144, 65542, 65542), ("every", 65536)))
+    if BIG_STACK:
+        cases.append(backlog_case(rng, IDS1, sizes_for(rng, 1048576 + 4096 + rng.randrange(100), 50000, 65542), ("every", 65536), tail=False))
     if big:
-        for total in (300000, 524288, 1048576, 2097152):
+        for total in (300000, 524288, 1048576, 2097152) if BIG_STACK else (300000, 400000):
             cases.append(backlog_case(rng, IDS1, sizes_for(rng, total + rng.randrange(100), 30000, 65542), ("every", 8192)))
             cases.append(backlog_case(rng, IDS3, sizes_for(rng, total // 2, 500, 65542), ("cuts", 7)))
         for _ in range(40):
@@ -465,10 +482,15 @@ def oracle(case, ires, sres):
         return ("C13/parse_space_packets/raises", "parser raised on an octet stream: %s" % (ires,))
     ops = a[2:]
     obs, rest = split_obs(ires, len(ops) if op == 900 else sum(1 for o in ops if not _is_append(o)))
-    if rest != [[0]]:
+    r = _oracle_history(op, a, ops, obs, sres)
+    if r is None and rest != [[0]]:
         return ("C13/parse_space_packets/aliased-buffers",
                 "overwriting the chunk objects the caller had appended (consumed by the call) or the packets it was handed "
                 "changed the queue or a packet handed out earlier after %s parse call(s): the results share memory" % (rest,))
+    return r
+
+
+def _oracle_history(op, a, ops, obs, sres):
     if op == 902:       # appends are not observed: (no packets, queue unknown)
         it = iter(obs)
         obs = [([], None) if _is_append(o) else next(it) for o in ops]
